@@ -95,6 +95,7 @@ fn result_obs<T: SourceTrait>(r: &ParseResult<T>, want_asg: bool) -> Value {
 
 /// Analyse a source string. Panics are data.
 pub fn analyze_string(text: &str, search: Option<&[PathBuf]>, want_asg: bool) -> Value {
+    note_input(text);
     let r = guarded(|| {
         let res = parse_source_string_with_path_search(text, Some("main.qasm"), search);
         result_obs(&res, want_asg)
@@ -106,6 +107,7 @@ pub fn analyze_string(text: &str, search: Option<&[PathBuf]>, want_asg: bool) ->
 }
 
 pub fn analyze_file(path: &str, search: Option<&[PathBuf]>, want_asg: bool) -> Value {
+    note_input(&format!("file {path}: {}", std::fs::read_to_string(path).unwrap_or_default()));
     let r = guarded(|| {
         let res = parse_source_file_with_search(path, search);
         result_obs(&res, want_asg)
